@@ -19,7 +19,9 @@ EXPLANATION = (
     "narrows to exactly the wire's 16 fractional bits. SCALE-2: the sibling conversions use the same constants: "
     "10^9 in Time::{secs, subsec_nanos, from_secs}, Duration::{secs, seconds, from_secs, from_seconds, "
     "from_log_interval, from_interval} and From<WireTimestamp>; 10^6 / 10^3 in from_millis / from_micros; "
-    "log intervals are 2^n through powi of the literal 2.0. EXACT-1: From<WireTimestamp> for Time multiplies in "
+    "log intervals are 2^n through powi of the literal 2.0. OPS-1: every Add/Sub/Neg/Mul/Div/Rem (and op-assign) impl on Time and Duration is reduced, per path and with "
+    "unsigned_abs resolved from the is_negative literal of that path, to a linear form that must equal a+b / a-b / -a "
+    "(multiplicative ones: op(self, rhs) in that order). EXACT-1: From<WireTimestamp> for Time multiplies in "
     "a type of at least 80 bits (48-bit seconds * 10^9), Time - Time is computed on the signed 96.32 "
     "representation of both operands."
 )
@@ -63,6 +65,10 @@ def run(ctx):
     rep.rule("SCALE-1", "shift amounts equal the difference of the types' fractional bits; shift before narrowing", floor=4)
     rep.rule("SCALE-2", "sibling conversions agree on 10^9 / 10^6 / 10^3 / 2^n", floor=12)
     rep.rule("EXACT-1", "wide intermediate types in wire-time conversions and time differences", floor=2)
+    rep.rule("OPS-1", "every core::ops impl on Time/Duration has its arithmetic meaning on every path (sign-aware "
+                      "linear form)", floor=16)
+    from rules import timeops
+    timeops.check_ops(rep, prog, "OPS-1")
     table = load_table(ctx)
     used = set()
     ordn = collections.Counter()
